@@ -35,10 +35,31 @@ fn opt<T>(o: &Option<T>, f: impl Fn(&T) -> String) -> String {
 pub fn bs(b: &[u8]) -> String {
     format!("x{}", hex(b))
 }
+thread_local! {
+    /// when recording: (address, length, is `Cow::Borrowed`) of every string leaf serialised
+    static LEAVES: std::cell::RefCell<Option<Vec<(usize, usize, bool)>>> = std::cell::RefCell::new(None);
+}
+/// start recording the string leaves visited by the serialiser on this thread (C07: where does the
+/// parsed view point?)
+pub fn record_start() {
+    LEAVES.with(|l| *l.borrow_mut() = Some(vec![]));
+}
+pub fn record_take() -> Vec<(usize, usize, bool)> {
+    LEAVES.with(|l| l.borrow_mut().take().unwrap_or_default())
+}
+fn leaf(ptr: *const u8, len: usize, borrowed: bool) {
+    LEAVES.with(|l| {
+        if let Some(v) = l.borrow_mut().as_mut() {
+            v.push((ptr as usize, len, borrowed));
+        }
+    });
+}
 fn st(s: &Cow<str>) -> String {
+    leaf(s.as_ptr(), s.len(), matches!(s, Cow::Borrowed(_)));
     bs(s.as_bytes())
 }
 fn by(s: &Cow<[u8]>) -> String {
+    leaf(s.as_ptr(), s.len(), matches!(s, Cow::Borrowed(_)));
     bs(s)
 }
 fn nat<T: std::fmt::Display>(n: T) -> String {
@@ -485,6 +506,10 @@ pub fn response(r: &Response) -> String {
         Response::Id(m) => sx(
             "Id",
             &[opt(m, |m| {
+                for (k, v) in m.iter() {
+                    leaf(k.as_ptr(), k.len(), matches!(k, Cow::Borrowed(_)));
+                    leaf(v.as_ptr(), v.len(), matches!(v, Cow::Borrowed(_)));
+                }
                 let mut kv: Vec<(&[u8], &[u8])> =
                     m.iter().map(|(k, v)| (k.as_bytes(), v.as_bytes())).collect();
                 kv.sort();
